@@ -40,7 +40,7 @@ type Interp struct {
 	// value, which models "the loop is at an arbitrary iteration": state
 	// carried from earlier iterations is unknown.
 	HavocPhi func(fn *ssa.Function, phi *ssa.Phi, key string) (Val, bool)
-	LastPhi     map[string]Val
+	LastPhi  map[string]Val
 	// InlinePrefix limits inlining to functions of the module under analysis.
 	InlinePrefix string
 	MaxDepth     int
